@@ -14,6 +14,7 @@
 (*              err: only if the connection failed / the writer is shut;           *)
 (*              timeout / cancelled: the caller gave up (its entry is removed);    *)
 (*              "hung" matches nothing: a call that does not return is rejected    *)
+(*   fsent(c,id) the server read a forwarded request: the id is the caller's own    *)
 (*   dupreg     a forward_message reused the id of a call in flight: refused       *)
 (*   note(f)    a notify frame reached the subscriber (never a caller)             *)
 (*   after      all done: the pending map must be empty; after a failure the       *)
@@ -23,6 +24,7 @@ EXTENDS Integers, Sequences, FiniteSets, TLC, Json, IOUtils
 Rec == ndJsonDeserialize(IOEnv.TRACE)
 Callers == 1..70
 MaxJunk == 0  AllowFault == TRUE  AllowTimeout == TRUE  AllowCancel == TRUE  HasNotify == TRUE  ShutFirst == TRUE
+Forwarders == {}  ForwardRewinds == FALSE     \* forwarded requests appear as explicit events (fsent), see below
 
 VARIABLES nextId, pending, pc, cid, chan, result, c2s, s2c, seen, answered, junk, cur, writerShut, reader, notes, subEnded,
           used, l
@@ -53,6 +55,14 @@ TSent == /\ l <= Len(Rec) /\ E.ev = "sent" /\ pc[E.c] \in {"registered", "done"}
                  /\ pending' = (pending \ {Placeholder(E.c)}) \cup (IF Placeholder(E.c) \in pending THEN {E.id} ELSE {})
             ELSE UNCHANGED <<pc, cid, pending>>            \* the caller already gave up (cancelled / timed out before the server looked)
          /\ Keep /\ UNCHANGED <<chan, s2c, cur, writerShut, reader, notes, subEnded>> /\ l' = l + 1
+\* the server read a FORWARDED request (forward_message): the id is the forwarding caller's own choice - it may repeat
+\* an id a finished call used, and it is not drawn from the client's counter (`used` is neither consulted nor extended)
+TFSent == /\ l <= Len(Rec) /\ E.ev = "fsent" /\ pc[E.c] \in {"registered", "done"}
+          /\ IF pc[E.c] = "registered"
+             THEN /\ pc' = [pc EXCEPT ![E.c] = "waiting"] /\ cid' = [cid EXCEPT ![E.c] = E.id]
+                  /\ pending' = (pending \ {Placeholder(E.c)}) \cup (IF Placeholder(E.c) \in pending THEN {E.id} ELSE {})
+             ELSE UNCHANGED <<pc, cid, pending>>
+          /\ Keep /\ UNCHANGED <<chan, s2c, cur, writerShut, reader, notes, subEnded, used>> /\ l' = l + 1
 \* the server read one of the client's own notifies: it drew its id from the same counter as the calls
 TNSent == /\ l <= Len(Rec) /\ E.ev = "nsent" /\ E.id \notin used /\ used' = used \cup {E.id}
           /\ Keep /\ UNCHANGED <<pending, pc, cid, chan, s2c, cur, writerShut, reader, notes, subEnded>> /\ l' = l + 1
@@ -100,7 +110,7 @@ TAfter == /\ l <= Len(Rec) /\ E.ev = "after"
 
 \* silent reader steps (ClientMux's own actions)
 Silent == (M!Recv \/ M!Dispatch \/ M!Fail1 \/ M!Fail2 \/ M!NetReset) /\ UNCHANGED <<used, l>>
-Next == TReset \/ TStart \/ TSent \/ TNSent \/ TWFail \/ TSrv \/ TRet \/ TDupReg \/ TNote \/ TSubEnd \/ TAfter \/ Silent
+Next == TReset \/ TStart \/ TSent \/ TFSent \/ TNSent \/ TWFail \/ TSrv \/ TRet \/ TDupReg \/ TNote \/ TSubEnd \/ TAfter \/ Silent
 Spec == Init /\ [][Next]_tvars
 
 NoResidue == M!NoResidue
